@@ -13,6 +13,8 @@ class Ctx:
         self.features = {}
 
     def n(self, quick, thorough):
+        if self.quick and getattr(self, "boost", False):
+            return max(quick, thorough // 3)         # a translator could not read the source: search wider (bin/check)
         return quick if self.quick else thorough
 
 
